@@ -626,7 +626,7 @@ class Exec:
                 return ("fop", op, a, b)
             if t.endswith("*") and op in ("+", "-"):
                 # pointer arithmetic
-                at = e["a"].get("t", "")
+                at = strip_cv(e["a"].get("t", ""))
                 if at.endswith("*") or at.endswith("]"):
                     return sym.padd(a, b if op == "+" else sym.neg(b))
                 return sym.padd(b, a)
